@@ -1,8 +1,7 @@
 (* Local (state-independent) facts about the lock-engine model, part 0: toolkit.
-   - projections of the state through the primitive updates (updl/setl/updm/setm/updc, free_lock, unref, ...)
-   - event classes: which helper emits which kind of event
-   - frame relations on the key table (`mp_same p`: the projection p of every manager is unchanged; key set unchanged)
-     and on the store (`dm`: a dead waiter stays dead), in "right-extension" form so that `eauto` chains them.
+   - head-directed case-splitting tactics for the big step functions (split_hyp, inv_tuple)
+   - projections of the state through the primitive updates (updl/setl/updm/setm/updc)
+   - event classes: which helper emits which kind of event (push_*_aof: only log records; process_data: only panics; ...)
    Nothing here needs a reachability invariant: every lemma holds for every db value. *)
 From Coq Require Import String ZifyN ZifyBool.
 From Slock Require Import Engine.Types Engine.Queues Engine.Timers Engine.Engine Engine.Engine2.
@@ -26,11 +25,6 @@ Ltac split_hyp H :=
           (is_var y; destruct y) || destruct y eqn:?
       end
   end; cbv beta iota zeta in H.
-
-Ltac split_goal_lhs :=
-  lazymatch goal with
-  | |- context [match ?x with _ => _ end] => idtac
-  end.
 
 Ltac inv H := inversion H; subst; clear H.
 
